@@ -55,10 +55,16 @@ var slotBuilders = []slotBuilder{
 	{"under-cmp", "find", findWith(func(g *Gen, l func() *Node) *Node {
 		return ObjN(g.Field(), ObjN(g.pick("$eq", "$ne", "$gt", "$gte", "$lt", "$lte"), l()))
 	})},
-	{"in-array", "find", findWith(func(g *Gen, l func() *Node) *Node { return ObjN(g.Field(), ObjN(g.pick("$in", "$nin", "$all"), ArrN(l(), l()))) })},
-	{"in-array-nested", "find", findWith(func(g *Gen, l func() *Node) *Node { return ObjN(g.Field(), ObjN("$in", ArrN(ArrN(l()), ArrN(ArrN(l()), l())))) })},
+	{"in-array", "find", findWith(func(g *Gen, l func() *Node) *Node {
+		return ObjN(g.Field(), ObjN(g.pick("$in", "$nin", "$all"), ArrN(l(), l())))
+	})},
+	{"in-array-nested", "find", findWith(func(g *Gen, l func() *Node) *Node {
+		return ObjN(g.Field(), ObjN("$in", ArrN(ArrN(l()), ArrN(ArrN(l()), l()))))
+	})},
 	{"array-valued-field", "find", findWith(func(g *Gen, l func() *Node) *Node { return ObjN(g.Field(), ArrN(l(), ObjN("sub", l()))) })},
-	{"elemMatch", "find", findWith(func(g *Gen, l func() *Node) *Node { return ObjN("items", ObjN("$elemMatch", ObjN("sku", l(), "n", ObjN("$gt", l())))) })},
+	{"elemMatch", "find", findWith(func(g *Gen, l func() *Node) *Node {
+		return ObjN("items", ObjN("$elemMatch", ObjN("sku", l(), "n", ObjN("$gt", l()))))
+	})},
 	{"under-not", "find", findWith(func(g *Gen, l func() *Node) *Node { return ObjN(g.Field(), ObjN("$not", ObjN("$gte", l()))) })},
 	{"and-or-nor", "find", findWith(func(g *Gen, l func() *Node) *Node {
 		return ObjN(g.pick("$and", "$or", "$nor"), ArrN(ObjN("a", l()), ObjN("$or", ArrN(ObjN("b", ObjN("$lt", l()))))))
@@ -73,7 +79,9 @@ var slotBuilders = []slotBuilder{
 	{"fam-update-pipeline", "findAndModify", func(g *Gen, l func() *Node, coll, db string) *Node {
 		return cmdTail(ObjN("findAndModify", collN(coll), "query", ObjN("k", l()), "update", ArrN(ObjN("$set", ObjN("v", l())))), db)
 	}},
-	{"update-set", "update", updWith(func(g *Gen, l func() *Node) *Node { return ObjN(g.pick("$set", "$setOnInsert", "$min", "$max"), ObjN(g.Field(), l())) })},
+	{"update-set", "update", updWith(func(g *Gen, l func() *Node) *Node {
+		return ObjN(g.pick("$set", "$setOnInsert", "$min", "$max"), ObjN(g.Field(), l()))
+	})},
 	{"update-push", "update", updWith(func(g *Gen, l func() *Node) *Node { return ObjN(g.pick("$push", "$addToSet"), ObjN("tags", l())) })},
 	{"push-each", "update", updWith(func(g *Gen, l func() *Node) *Node {
 		return ObjN(g.pick("$push", "$addToSet"), ObjN("tags", ObjN("$each", ArrN(l(), l()))))
@@ -101,14 +109,18 @@ var slotBuilders = []slotBuilder{
 	{"match-cmp", "aggregate", aggWith(func(g *Gen, l func() *Node) []*Node {
 		return []*Node{ObjN("$match", ObjN(g.Field(), ObjN(g.pick("$eq", "$ne", "$gt", "$lte"), l())))}
 	})},
-	{"match-in", "aggregate", aggWith(func(g *Gen, l func() *Node) []*Node { return []*Node{ObjN("$match", ObjN(g.Field(), ObjN("$in", ArrN(l(), l()))))} })},
+	{"match-in", "aggregate", aggWith(func(g *Gen, l func() *Node) []*Node {
+		return []*Node{ObjN("$match", ObjN(g.Field(), ObjN("$in", ArrN(l(), l()))))}
+	})},
 	{"match-and", "aggregate", aggWith(func(g *Gen, l func() *Node) []*Node {
 		return []*Node{ObjN("$match", ObjN("$and", ArrN(ObjN("a", ObjN("$ne", l())), ObjN("b", l()))))}
 	})},
 	{"match-expr", "aggregate", aggWith(func(g *Gen, l func() *Node) []*Node {
 		return []*Node{ObjN("$match", ObjN("$expr", ObjN("$and", ArrN(ObjN("$eq", ArrN(g.Ref(), l())), ObjN("$gt", ArrN(g.Ref(), l()))))))}
 	})},
-	{"addFields-literal", "aggregate", aggWith(func(g *Gen, l func() *Node) []*Node { return []*Node{ObjN(g.pick("$addFields", "$set"), ObjN("nf", l()))} })},
+	{"addFields-literal", "aggregate", aggWith(func(g *Gen, l func() *Node) []*Node {
+		return []*Node{ObjN(g.pick("$addFields", "$set"), ObjN("nf", l()))}
+	})},
 	{"addFields-cond", "aggregate", aggWith(func(g *Gen, l func() *Node) []*Node {
 		return []*Node{ObjN("$addFields", ObjN("nf", ObjN("$cond", ObjN("if", ObjN("$eq", ArrN(g.Ref(), l())), "then", l(), "else", l()))))}
 	})},
@@ -118,7 +130,9 @@ var slotBuilders = []slotBuilder{
 	{"project-switch", "aggregate", aggWith(func(g *Gen, l func() *Node) []*Node {
 		return []*Node{ObjN("$project", ObjN("lvl", ObjN("$switch", ObjN("branches", ArrN(ObjN("case", ObjN("$eq", ArrN(g.Ref(), l())), "then", l())), "default", l()))))}
 	})},
-	{"project-literal", "aggregate", aggWith(func(g *Gen, l func() *Node) []*Node { return []*Node{ObjN("$project", ObjN("c", ObjN("$literal", l())))} })},
+	{"project-literal", "aggregate", aggWith(func(g *Gen, l func() *Node) []*Node {
+		return []*Node{ObjN("$project", ObjN("c", ObjN("$literal", l())))}
+	})},
 	{"group-id", "aggregate", aggWith(func(g *Gen, l func() *Node) []*Node {
 		return []*Node{ObjN("$group", ObjN("_id", ObjN("k", ObjN("$ifNull", ArrN(g.Ref(), l()))), "vals", ObjN("$push", l()), "n", ObjN("$sum", ObjN("$cond", ArrN(ObjN("$eq", ArrN(g.Ref(), l())), sens(NumN(g.Number()), "num", "cat"), sens(NumN(g.Number()), "num", "cat"))))))}
 	})},
@@ -142,11 +156,15 @@ var slotBuilders = []slotBuilder{
 	{"bucket", "aggregate", aggWith(func(g *Gen, l func() *Node) []*Node {
 		return []*Node{ObjN("$bucket", ObjN("groupBy", ObjN("$concat", ArrN(g.Ref(), l())), "boundaries", ArrN(l(), l()), "default", l(), "output", ObjN("c", ObjN("$push", l()))))}
 	})},
-	{"sortByCount", "aggregate", aggWith(func(g *Gen, l func() *Node) []*Node { return []*Node{ObjN("$sortByCount", ObjN("$ifNull", ArrN(g.Ref(), l())))} })},
+	{"sortByCount", "aggregate", aggWith(func(g *Gen, l func() *Node) []*Node {
+		return []*Node{ObjN("$sortByCount", ObjN("$ifNull", ArrN(g.Ref(), l())))}
+	})},
 	{"merge-whenMatched", "aggregate", aggWith(func(g *Gen, l func() *Node) []*Node {
 		return []*Node{ObjN("$merge", ObjN("into", g.nsColl(), "let", ObjN("v", l()), "whenMatched", ArrN(ObjN("$addFields", ObjN("x", l())))))}
 	})},
-	{"documents-stage", "aggregate", aggWith(func(g *Gen, l func() *Node) []*Node { return []*Node{ObjN("$documents", ArrN(ObjN("a", l(), "b", ArrN(l()))))} })},
+	{"documents-stage", "aggregate", aggWith(func(g *Gen, l func() *Node) []*Node {
+		return []*Node{ObjN("$documents", ArrN(ObjN("a", l(), "b", ArrN(l()))))}
+	})},
 	{"graphLookup", "aggregate", aggWith(func(g *Gen, l func() *Node) []*Node {
 		return []*Node{ObjN("$graphLookup", ObjN("from", g.nsColl(), "startWith", ObjN("$ifNull", ArrN(g.Ref(), l())), "connectFromField", FreeS("a"), "connectToField", FreeS("b"), "as", FreeS("c"), "restrictSearchWithMatch", ObjN("r", l())))}
 	})},
@@ -162,11 +180,17 @@ var slotBuilders = []slotBuilder{
 	{"setWindowFields", "aggregate", aggWith(func(g *Gen, l func() *Node) []*Node {
 		return []*Node{ObjN("$setWindowFields", ObjN("partitionBy", ObjN("$ifNull", ArrN(g.Ref(), l())), "sortBy", ObjN("a", FreeI(1)), "output", ObjN("w", ObjN("$push", l(), "window", ObjN("documents", ArrN(FreeS("unbounded"), FreeS("current")))))))}
 	})},
-	{"fill", "aggregate", aggWith(func(g *Gen, l func() *Node) []*Node { return []*Node{ObjN("$fill", ObjN("output", ObjN("f", ObjN("value", l()))))} })},
+	{"fill", "aggregate", aggWith(func(g *Gen, l func() *Node) []*Node {
+		return []*Node{ObjN("$fill", ObjN("output", ObjN("f", ObjN("value", l()))))}
+	})},
 	{"search-equals", "aggregate", searchWith(func(g *Gen, l func() *Node) *Node { return ObjN("equals", ObjN("path", g.path(), "value", l())) })},
 	{"search-in", "aggregate", searchWith(func(g *Gen, l func() *Node) *Node { return ObjN("in", ObjN("path", g.path(), "value", ArrN(l(), l()))) })},
-	{"search-range", "aggregate", searchWith(func(g *Gen, l func() *Node) *Node { return ObjN("range", ObjN("path", g.path(), "gte", l(), "lt", l())) })},
-	{"search-near", "aggregate", searchWith(func(g *Gen, l func() *Node) *Node { return ObjN("near", ObjN("path", g.path(), "origin", l(), "pivot", FreeI(2))) })},
+	{"search-range", "aggregate", searchWith(func(g *Gen, l func() *Node) *Node {
+		return ObjN("range", ObjN("path", g.path(), "gte", l(), "lt", l()))
+	})},
+	{"search-near", "aggregate", searchWith(func(g *Gen, l func() *Node) *Node {
+		return ObjN("near", ObjN("path", g.path(), "origin", l(), "pivot", FreeI(2)))
+	})},
 	{"search-compound", "aggregate", searchWith(func(g *Gen, l func() *Node) *Node {
 		return ObjN("compound", ObjN("must", ArrN(ObjN("equals", ObjN("path", g.path(), "value", l()))), "filter", ArrN(ObjN("range", ObjN("path", g.path(), "gt", l()))), "should", ArrN(ObjN("in", ObjN("path", g.path(), "value", ArrN(l()))))))
 	})},
@@ -216,6 +240,45 @@ func (g *Gen) Catalogue(reps int) []*Case {
 				out = append(out, g.Case(CaseOpts{Verb: b.Verb, Carrier: car, Comp: comp, DB: db, Coll: coll, Cmd: cmd}))
 				i++
 			}
+		}
+	}
+	return out
+}
+
+// KeywordCatalogue: every keyword-like name used as a USER FIELD NAME in the
+// query-predicate / update / insert / $match / $vectorSearch.filter slots,
+// with a plain string literal (and one nested document) as its value.
+func (g *Gen) KeywordCatalogue() []*Case {
+	var out []*Case
+	i := 0
+	for _, k := range KeywordFields {
+		for si := 0; si < 6; si++ {
+			slot := "kw-" + []string{"filter", "match", "vector-filter", "update-set", "insert", "match-nested"}[si]
+			l := func() *Node { return g.LitClass("str", slot) }
+			db, coll := "db"+g.letters(5), "coll"+g.letters(5)
+			var cmd *Node
+			verb := "aggregate"
+			switch si {
+			case 0:
+				verb = "find"
+				cmd = cmdTail(ObjN("find", collN(coll), "filter", ObjN(k, l(), "plain", ObjN(k, l()))), db)
+			case 1:
+				cmd = cmdTail(ObjN("aggregate", collN(coll), "pipeline", ArrN(ObjN("$match", ObjN(k, l(), "o", ObjN("$or", ArrN(ObjN(k, ObjN("$ne", l()))))))), "cursor", keep(ObjN())), db)
+			case 2:
+				vs := ObjN("index", KeepS("v_kw"), "path", g.path(), "queryVector", ArrN(sens(NumN(g.Number()), "num", "vector")), "numCandidates", KeepI(50), "limit", KeepI(5),
+					"filter", ObjN(k, l(), "w", ObjN("$and", ArrN(ObjN(k, ObjN("$eq", l()))))))
+				cmd = cmdTail(ObjN("aggregate", collN(coll), "pipeline", ArrN(ObjN("$vectorSearch", vs)), "cursor", keep(ObjN())), db)
+			case 3:
+				verb = "update"
+				cmd = cmdTail(ObjN("update", collN(coll), "updates", ArrN(ObjN("q", ObjN(k, l()), "u", ObjN("$set", ObjN(k, l())), "multi", FreeB(false))), "ordered", keep(BoolN(true))), db)
+			case 4:
+				verb = "insert"
+				cmd = cmdTail(ObjN("insert", collN(coll), "documents", ArrN(ObjN(k, l(), "sub", ObjN(k, ArrN(l())))), "ordered", keep(BoolN(true))), db)
+			case 5:
+				cmd = cmdTail(ObjN("aggregate", collN(coll), "pipeline", ArrN(ObjN("$match", ObjN("doc", ObjN(k, l()))), ObjN("$addFields", ObjN(k, l()))), "cursor", keep(ObjN())), db)
+			}
+			out = append(out, g.Case(CaseOpts{Verb: verb, Carrier: Carriers[i%3], Comp: Comps[(i/3)%3], DB: db, Coll: coll, Cmd: cmd}))
+			i++
 		}
 	}
 	return out
